@@ -43,7 +43,7 @@ def generate(rng: random.Random, tier: str):
         pre = rng.choice(["fresh", "foreign", "geff"])
         yield {"kind": "invalid", "entry": "write_arrays", "fmt": rng.choice([2, 3]), "pre": pre, "overwrite": pre == "geff",
                "validate": True, "old": small_graph(rng) if pre == "geff" else None, **malform(rng, g)}
-    for i in range(8 if tier == "quick" else 80):
+    for i in range(14 if tier == "quick" else 120):
         yield dicts_case(rng)
 
 
@@ -52,8 +52,10 @@ def dicts_case(rng):
     ids = rng.sample(range(1, 50), n)
     nodes = [[i, {"t": float(rng.randint(0, 5)), **({"s": rng.randint(0, 9)} if rng.random() < 0.6 else {})}] for i in ids]
     edges = [[[ids[0], ids[-1]], {"w": 0.5}]] if n >= 2 else []
-    return {"kind": "crash", "entry": rng.choice(["write_dicts", "nx"]), "fmt": rng.choice([2, 3]), "pre": "fresh", "overwrite": False,
-            "validate": True, "nodes": nodes, "edges": edges, "directed": True}
+    entry = rng.choice(["write_dicts", "nx", "nx"])
+    pre = rng.choice(["fresh", "foreign", "geff"]) if entry == "nx" else "fresh"
+    return {"kind": "crash", "entry": entry, "fmt": rng.choice([2, 3]), "pre": pre, "overwrite": pre == "geff",
+            "validate": True, "nodes": nodes, "edges": edges, "directed": True, "old": small_graph(rng) if pre == "geff" else None}
 
 
 def make_pre(c, it):
@@ -99,7 +101,7 @@ def call_entry(c, store):
             G.add_node(i, **d)
         for (a, b), d in c["edges"]:
             G.add_edge(a, b, **d)
-        geff.write(G, store, zarr_format=c["fmt"])
+        geff.write(G, store, zarr_format=c["fmt"], **({"overwrite": True} if c["overwrite"] else {}))
 
 
 def expected_graphs(c):
@@ -152,8 +154,12 @@ def run_impl(c):
     inner = make_pre(c, it)
     pre_tree = dump_tree(inner, it)
     ts = TracingStore(inner)
+    captured = []
     try:
-        call_entry(c, ts)
+        from harness.c06 import capture_write_arrays
+
+        with capture_write_arrays(captured):
+            call_entry(c, ts)
         obs["res"] = ["ok"]
     except Exception as e:
         obs["res"] = ["err", exn_name(e), str(e)[:100]]
@@ -184,6 +190,19 @@ def run_impl(c):
         survivors.append((tree_k, verdict))
     obs["outcomes"] = sorted(set(outcomes))
     obs["verdicts"] = [v for _, v in survivors]
+    if c["entry"] == "nx" and captured and tree_printable(pre_tree) and tree_printable(final_tree):
+        # the graph-library writer, tied to api_write on the arrays the backend handed to write_arrays
+        try:
+            a = captured[0]
+            if all(gg.printable_np(p["values"]) for ps in (a["node_props"], a["edge_props"]) if ps for p in ps.values()):
+                inp = (f"IApiCrash KObj {c_otree(pre_tree)} {gg.c_wgraph(a['node_ids'], a['edge_ids'], a['node_props'], a['edge_props'], it)} "
+                       f"{c_meta(abstract_meta_obj(a['metadata'], it))} {cbool(a['structure_validation'])} {cbool(c['overwrite'])}")
+                surv = clist(survivors + [(final_tree, obs["final_judged"])],
+                             lambda tv: f"({'Some ' + c_otree(tv[0]) if tree_printable(tv[0]) else 'None'}, {cbool(tv[1] != 'rejected')})")
+                r = "(Ok tt)" if obs["res"][0] == "ok" else f"(Err {obs['res'][1]})"
+                obs["coq"] = f"({inp}, OCrash {r} {c_otree(final_tree)} {surv})"
+        except HarnessError:
+            pass
     if c["entry"] == "write_arrays" and tree_printable(pre_tree) and tree_printable(final_tree):
         try:
             nids, eids = gg.to_np(c["nids"]), gg.to_np(c["eids"])
